@@ -1,3 +1,9 @@
+/-
+  C07Whole helper proofs (entry point).  The lemmas live in the `Wr*` files:
+  `WrFormat`  the `%E*z`, `%E*f`, `%E<n>f` iterations of `formatLoop`; the text written for
+              "%Y-%m-%d%ET%H:%M:%E*S%E*z".
+-/
 import Cctz.Model.Parse
 import Cctz.Spec.FormatSpec
 import Cctz.Spec.TableSem
+import Cctz.Proofs.WrFormat
